@@ -320,6 +320,21 @@ Theorem reaction_routes_agree_pivots {X} (nd : X -> node (SpatialVec R) (Vec3 R)
   = map (fun r => (fst r, snd (snd r))) (flatten (react_art KR AR nd dy t)).
 Proof. intros H. apply reaction_routes_agree_R. intros y Hy. destruct (H y Hy) as [H1 H2]. exact (body_ok_any_dof nd dy t y Hy H1 H2). Qed.
 
+(** the second direction of "exact inverses": if inverse dynamics of [ud] leaves a zero residual under the applied
+    forces, forward dynamics under those forces returns exactly [ud] -- every tree, any number of mobilities per body *)
+Theorem fd_unique_pivots {X} (nd : X -> node (SpatialVec R) (Vec3 R) (SpInertia (T:=R))) (dy : X -> dyn R (SpatialVec R))
+    (ud : X -> list R) (t : tree X) :
+  (forall y, In y (flatten (abi_pass KR AR nd t)) ->
+     length (d_f (dy (fst y))) = length (n_H (nd (fst y))) /\ length (ud (fst y)) = length (n_H (nd (fst y))) /\ pivots_ok (a_D (snd y))) ->
+  Forall (fun r => snd r = map (fun _ => 0) (n_H (nd (fst (fst (fst r)))))) (flatten (rnea KR AR nd dy ud t)) ->
+  Forall (fun w => w_ud w = ud (w_x w)) (flatten (fd KR AR nd dy t)).
+Proof. intros H. apply fd_unique_R. intros y Hy. destruct (H y Hy) as [H1 [H2 H3]].
+  split; [exact (body_ok_any_dof nd dy t y Hy H1 H3)|]. split; [|exact H2].
+  pose proof (abi_pass_DI nd t) as HDI. rewrite Forall_forall in HDI. specialize (HDI y Hy).
+  pose proof (abi_pass_D nd t) as HD. rewrite Forall_forall in HD. specialize (HD y Hy).
+  assert (El : length (n_H (nd (fst y))) = length (a_D (snd y))) by (rewrite HD, map_length; reflexivity).
+  intros e He. rewrite HDI. rewrite El in He. apply gj_left_inverse; [|exact H3|exact He]. rewrite HD. apply D_square. Qed.
+
 (** non-vacuity: a 3 x 3 symmetric positive definite block (as a Ball or Translation mobilizer produces) has non-zero pivots *)
 Example pivots_ok_example : pivots_ok [[4; 1; 0]; [1; 3; 1]; [0; 1; 2]].
 Proof. intros k Hk. cbn [length] in Hk.
@@ -348,3 +363,29 @@ Proof. intros Ha Hm Hdet.
   all: try (repeat split; try exact Ha; try (intro E0; apply Hm; lra)).
   all: (intro E0; apply Hdet; apply (Rmult_eq_reg_l a); [|exact Ha]; rewrite Rmult_0_r; rewrite <- E0; ring).
 Qed.
+
+(** non-vacuity of the uniqueness theorem: Ground + one slider body (mass 2) pushed with mobility force 4 accelerates with udot = 2 *)
+Definition sl_nd (x : nat) : node (SpatialVec R) (Vec3 R) (SpInertia (T:=R)) :=
+  match x with
+  | O => mkNode (0,0,0) [] (0, (0,0,0), ((0,0,0),(0,0,0)))
+  | _ => mkNode (0,0,0) [((0,0,0),(1,0,0))] (2, (0,0,0), ((1,1,1),(0,0,0)))
+  end.
+Definition sl_dy (x : nat) : dyn R (SpatialVec R) :=
+  match x with
+  | O => mkDyn ((0,0,0),(0,0,0)) ((0,0,0),(0,0,0)) ((0,0,0),(0,0,0)) []
+  | _ => mkDyn ((0,0,0),(0,0,0)) ((0,0,0),(0,0,0)) ((0,0,0),(0,0,0)) [4]
+  end.
+Definition sl_ud (x : nat) : list R := match x with O => [] | _ => [2] end.
+Definition sl_t : tree nat := Node 0%nat [Node 1%nat []].
+Example sl_resid : Forall (fun r => snd r = map (fun _ => 0) (n_H (sl_nd (fst (fst (fst r)))))) (flatten (rnea KR AR sl_nd sl_dy sl_ud sl_t)).
+Proof. cbv - [Rplus Rmult Rminus Rdiv Ropp Rinv IZR]. repeat constructor. f_equal. lra. Qed.
+Example sl_piv : forall y, In y (flatten (abi_pass KR AR sl_nd sl_t)) ->
+     length (d_f (sl_dy (fst y))) = length (n_H (sl_nd (fst y))) /\ length (sl_ud (fst y)) = length (n_H (sl_nd (fst y))) /\ pivots_ok (a_D (snd y)).
+Proof. intros y Hy. cbn [abi_pass sl_t inward flatten flat_map map app root] in Hy.
+  destruct Hy as [<-|[<-|[]]]; (split; [reflexivity|split; [reflexivity|]]).
+  - intros k Hk. cbn in Hk. lia.
+  - intros k Hk. cbn in Hk. destruct k as [|k]; [|lia]. unfold ent. cbv - [Rplus Rmult Rminus Rdiv Ropp Rinv IZR]. lra.
+Qed.
+Example sl_unique : Forall (fun w => w_ud w = sl_ud (w_x w)) (flatten (fd KR AR sl_nd sl_dy sl_t)).
+Proof. exact (fd_unique_pivots sl_nd sl_dy sl_ud sl_t sl_piv sl_resid). Qed.
+
